@@ -285,7 +285,7 @@ func cliCase(c *core.Ctx) {
 	r := &cliReq{ref: ref, seed: 1 + g.Intn(1000)}
 	tips := ref.TipNames()
 	primary := g.Intn(4)
-	conflict := g.Chance(0.35)
+	conflict := g.Chance(0.45)
 	// a second tree in the same input file, with ANOTHER tip set: some tips of the first one
 	// plus u0,u1,u2 (the compared tree has u0,u1: u2 is specific to the second tree only)
 	multi := g.Chance(0.4)
@@ -339,6 +339,15 @@ func cliCase(c *core.Ctx) {
 		// compared tree does not have as a tip: it is still specific to the reference tree
 		if in := innerNodes(r.comp); len(in) > 0 && len(l) > 0 && g.Chance(0.4) {
 			in[g.Intn(len(in))].Name = l[g.Intn(len(l))]
+		}
+		// a SINGLE-CHILD inner node of the compared tree (two neighbours) named like such a tip: no tip either
+		if len(l) > 0 && len(r.comp.Kids) > 0 && g.Chance(0.3) {
+			i := g.Intn(len(r.comp.Kids))
+			old := r.comp.Kids[i]
+			mid := &core.N{Name: l[g.Intn(len(l))], E: old.E, Kids: []*core.N{old}}
+			old.E = core.NewE()
+			old.E.Len = 1
+			r.comp.Kids[i] = mid
 		}
 	}
 	setR := func() {
@@ -397,6 +406,29 @@ func cliCase(c *core.Ctx) {
 		names2 = append(names2, "u0", "u1", "u2")
 		g.R.Shuffle(len(names2), func(i, j int) { names2[i], names2[j] = names2[j], names2[i] })
 		r.extra = compTree(g, names2)
+		// variant: a second tree of three tips that the same request leaves with two tips only, so that the
+		// command fails on it: the result of the FIRST tree must have been written by then
+		if !r.hasC && r.random == 0 && g.Chance(0.35) {
+			src := r.args
+			if r.hasF {
+				src = r.fnames
+			}
+			in := map[string]bool{}
+			for _, s := range src {
+				in[s] = true
+			}
+			var gone, stay []string
+			for _, s := range tips {
+				if in[s] != r.rev {
+					gone = append(gone, s)
+				} else {
+					stay = append(stay, s)
+				}
+			}
+			if len(gone) >= 1 && len(stay) >= 3 {
+				r.extra = compTree(g, []string{stay[0], gone[0], stay[1]})
+			}
+		}
 	}
 	r.toFile = g.Chance(0.3)
 	r.stdin = g.Chance(0.25)
